@@ -244,6 +244,11 @@ func GetKeyFields(fields []string) (allFields []string, nonRootFields []string) 
 	nonRootFields = make([]string, 0, len(fields))
 
 	for _, field := range fields {
+		if field == "" {
+			// An empty field name can never match a field of a span; skip it
+			// rather than indexing into it.
+			continue
+		}
 		switch {
 		case field[0] == RootPrefixFirstChar && strings.HasPrefix(field, RootPrefix):
 			// If the field starts with "root.", add it to rootFields
